@@ -42,11 +42,11 @@ SniffItems == { it \in { Item(<<102>>, d, l, h, z, c) : d \in Declared, l \in Le
 SeekItems == { [it EXCEPT !.seekable = TRUE, !.skip = k] : it \in { i \in SniffItems : i.chunk = 0 /\ i.len \in {1, 513} }, k \in {0, 5} }
 PlainItems == { Item(n, d, 1500, "text", 0, 0) : n \in Names, d \in Declared }
 
-In0 == [media |-> MULTIPART, method |-> "POST", presetct |-> "", payload |-> "none", fields |-> <<>>, files |-> <<>>, auth |-> FALSE, k |-> 0,
+In0 == [media |-> MULTIPART, method |-> "POST", presetct |-> "", payload |-> "none", fields |-> <<>>, files |-> <<>>, auth |-> FALSE, defauth |-> FALSE, k |-> 0,
         fault |-> FALSE, debug |-> FALSE]
 Init == track = "start" /\ in = In0
 
-Ids == [payload |-> "P", files |-> [i \in 1..Len(in.files) |-> [j \in 1..Len(in.files[i].items) |-> <<i, j>>]]]
+Ids == [payload |-> "P", ref |-> "P", files |-> [i \in 1..Len(in.files) |-> [j \in 1..Len(in.files[i].items) |-> <<i, j>>]]]
 
 SniffTrack ==
   /\ track = "start"
@@ -79,12 +79,17 @@ PayloadTrack ==
         me \in {"GET", "OPTIONS", "POST", "DELETE"}, pc \in {"", JSON, TEXT}, dbg \in BOOLEAN :
         in' = [in EXCEPT !.payload = p, !.media = m, !.auth = a, !.k = k, !.method = me, !.presetct = pc, !.debug = dbg]
   /\ track' = "payload"
+DefaultPlacement ==   \* the runtime-wide default writer, alone or next to the operation's
+  /\ track = "payload" /\ ~in.defauth
+  /\ in' = [in EXCEPT !.defauth = TRUE]
+  /\ track' = "payload"
 AuthOnForms ==      \* auth writers on form bodies (buffered urlencoded, streaming multipart)
   /\ track = "structure" /\ ~in.auth
-  /\ \E k \in 0..MaxK, dbg \in BOOLEAN : in' = [in EXCEPT !.auth = TRUE, !.k = k, !.debug = dbg]
+  /\ \E k \in 0..MaxK, dbg \in BOOLEAN, pl \in {"op", "default", "both"} :
+        in' = [in EXCEPT !.auth = (pl # "default"), !.defauth = (pl # "op"), !.k = k, !.debug = dbg]
   /\ track' = "structure-auth"
 
-Next == SniffTrack \/ StartStructure \/ AddFileField \/ AddItem \/ AddField \/ AddValue \/ PayloadTrack \/ AuthOnForms
+Next == DefaultPlacement \/ SniffTrack \/ StartStructure \/ AddFileField \/ AddItem \/ AddField \/ AddValue \/ PayloadTrack \/ AuthOnForms
 Spec == Init /\ [][Next]_vars
 
 \* the observation a faithful recorder makes of the model's body
